@@ -159,6 +159,9 @@ pub struct Conn {
     /// The opcode byte of the next response frame sent on this connection is replaced by
     /// this value (the rest of the frame stays intact).
     pub corrupt_next_opcode: Option<u8>,
+    /// Bytes (complete frames) that go out immediately in front of the next response
+    /// frame, in the same segment.
+    pub prepend_next_response: Option<Vec<u8>>,
 
     // server -> client
     pub s2c_last_deliver: u64,
@@ -448,7 +451,10 @@ impl World {
         if let Some(s) = stream {
             self.conns[conn].cql.outstanding.remove(&s);
             self.conns[conn].cql.outstanding_markers.remove(&s);
-            if bytes.len() > 4 {
+            if let Some(mut pre) = self.conns[conn].prepend_next_response.take() {
+                pre.extend_from_slice(&bytes);
+                bytes = pre;
+            } else if bytes.len() > 4 {
                 if let Some(op) = self.conns[conn].corrupt_next_opcode.take() {
                     bytes[4] = op;
                     self.fault(Fault::Corrupt);
@@ -934,6 +940,7 @@ async fn connect(
                 c2s_stalled: false,
                 c2s_stall_budget: None,
                 corrupt_next_opcode: None,
+                prepend_next_response: None,
                 s2c_last_deliver: 0,
                 s2c_sent: 0,
                 s2c_delivered: 0,
